@@ -247,6 +247,21 @@ def conv_pairs():
     return out
 
 
+def wrap_pairs():
+    """(outer, inner, k): outer's layers from index k on are exactly inner's layers, so a field of
+    type outer can be built from outer's first k configurations plus std::move(inner.backend())
+    (the idiom of tests/core/test_atlas_like_io.cpp)."""
+    out = []
+    for o in STACKS:
+        for i in STACKS:
+            if o is i or i.device or o.device or i.shape != 'SHAPE_LAYOUT':
+                continue
+            k = len(o.layers) - len(i.layers)
+            if k >= 1 and o.layers[k:] == i.layers:
+                out.append((o, i, k))
+    return out
+
+
 def c07_pairs():
     """Ordered (reader, writer) pairs that differ only in interpolator and/or float width."""
     out = []
@@ -274,6 +289,8 @@ def stacks_cpp():
     L += ['};', 'const int g_nstacks = %d;' % len(STACKS),
           'const int g_conv_pairs[][2] = {%s};' % ', '.join('{%d,%d}' % (d.index, s.index) for d, s in conv_pairs()),
           'const int g_nconv = %d;' % len(conv_pairs()),
+          'const int g_wrap_pairs[][3] = {%s};' % ', '.join('{%d,%d,%d}' % (o.index, i.index, k) for o, i, k in wrap_pairs()),
+          'const int g_nwrap = %d;' % len(wrap_pairs()),
           'static SlotOps g_ops[%d];' % len(STACKS),
           'SlotOps &ops_of(int i) { return g_ops[i]; }',
           'int stack_by_id(const char *id) { for (int i = 0; i < g_nstacks; ++i) if (!std::strcmp(g_stacks[i].id, id)) return i; return -1; }',
@@ -296,7 +313,12 @@ def tu_source(group, s, src=None):
         L.append('#define SIM_WITH_CUDA 1')
     L.append('#include "adapter.hpp"')
     L.append('namespace {')
-    if group == 'conv':
+    if group == 'wrap':
+        k = len(s.layers) - len(src.layers)
+        L.append(traits(s, 'TrO'))
+        L.append(traits(src, 'TrI'))
+        L.append('static ad::Registrar reg_(&ad::Wrap<TrO, TrI, %d>::reg);' % k)
+    elif group == 'conv':
         L.append(traits(s, 'TrD'))
         L.append(traits(src, 'TrS'))
         L.append('static ad::Registrar reg_(&ad::Conv<TrD, TrS>::reg);')
